@@ -475,7 +475,7 @@ impl Check for C12 {
         vec!["tls_reuse_runs", "multi_worker_runs", "kind:solve", "kind:schur", "kind:decomp"]
     }
     fn max_steps(&self) -> usize { 400_000 }
-    fn runs(&self, tier: &str) -> u64 { if tier == "quick" { 40_000 } else { 8_000_000 } }
+    fn runs(&self, tier: &str) -> u64 { if tier == "quick" { 40_000 } else { 1_500_000 } }
     fn gen_case(&self, rng: &mut Rng, _idx: u64, _tier: &str) -> Value { gen_case_inner(rng) }
     fn run_case(&self, case: &Value, ex: &mut Executor) -> RunReport {
         let ring = case["ring"].as_str().unwrap();
